@@ -388,3 +388,84 @@ func VerifHarness_C16_O5() {
 
 // C03/O6 — store type and cache size do not change the consensus output.
 func VerifHarness_C03_O6() { VerifHarness_C16_O5() }
+
+// C09/O8 (= C16/O6) — recorded block signatures are persisted: on a
+// Badger-backed store (cache smaller than the number of blocks, so older blocks
+// are evicted), signatures of the validators arrive for chosen blocks with
+// symbolic validity and are processed; the database record of every block
+// carries exactly the signatures the live block carries, before and after
+// close / reopen, and an anchor read back from the database still has the
+// signatures that made it the anchor.
+func VerifHarness_C09_O8() {
+	dir := verifTempDir("c09o8")
+	cache := []int{2, 50}[verifChoice("cacheSize", 2)]
+	bst, err := NewBadgerStore(cache, dir, false, nil)
+	if err != nil {
+		panic(err)
+	}
+	vn := verifNewNetOnStore(3, bst)
+	h := vn.h
+	nb := 4
+	var blocks []*Block
+	for bi := 0; bi < nb; bi++ {
+		b := NewBlock(bi, 0, []byte{byte(bi)}, vn.set.Peers, [][]byte{{byte(bi)}}, nil, int64(bi))
+		if err := bst.SetBlock(b); err != nil {
+			panic(err)
+		}
+		blocks = append(blocks, b)
+	}
+	target := verifChoice("signedBlock", 2) * (nb - 1) // the oldest (possibly evicted) or the newest
+	want := 0
+	for v := 0; v < 3; v++ {
+		if verifChoice(fmt.Sprintf("signatureFrom%d", v), 2) == 0 {
+			continue
+		}
+		blk, err := bst.GetBlock(target)
+		if err != nil {
+			panic(err)
+		}
+		bh, _ := blk.Body.Hash()
+		ok := verifNondetBool(fmt.Sprintf("valid%d", v))
+		sig := BlockSignature{Validator: vn.pubs[v], Index: target, Signature: verifSignature(vn.keys[v], bh, ok)}
+		h.PendingSignatures.Add(sig)
+		if err := h.ProcessSigPool(); err != nil {
+			panic(err)
+		}
+		if ok {
+			want++
+		}
+	}
+	live, err := bst.GetBlock(target)
+	verifAssert("signed-block-readable", err == nil)
+	if err != nil {
+		return
+	}
+	verifAssert("valid-member-signatures-recorded", len(live.Signatures) == want)
+	anchor := h.AnchorBlock != nil && *h.AnchorBlock == target
+	if verifChoice("closeAndReopen", 2) == 1 {
+		bst.Close()
+		bst, err = NewBadgerStore(cache, dir, false, nil)
+		if err != nil {
+			panic(err)
+		}
+	}
+	rec, err := bst.dbGetBlock(target)
+	verifAssert("block-record-readable", err == nil && rec != nil)
+	if err == nil {
+		same := len(rec.Signatures) == len(live.Signatures)
+		for k, v := range live.Signatures {
+			if rec.Signatures[k] != v {
+				same = false
+			}
+		}
+		verifAssert("database-record-carries-every-recorded-signature", same)
+		if anchor {
+			verifAssert("anchor-read-back-from-the-database-is-still-signed-by-more-than-a-third", len(rec.Signatures) > vn.set.TrustCount())
+			verifReach("anchor-raised")
+		}
+	}
+	bst.Close()
+	verifReach("end")
+}
+
+func VerifHarness_C16_O6() { VerifHarness_C09_O8() }
